@@ -155,6 +155,23 @@ func buildGlyph(m *t1model.Font, g *t1model.Glyph, o *GlyphOpts, tbl *subrTable,
 		return encodeToks(b.toks), nil
 	}
 
+	if o.HintRepl {
+		// Fonts with hint replacement usually carry counter control as well (Type 1
+		// Font Format Supplement, OtherSubrs 12 and 13, directly behind hsbw): the
+		// arguments go in groups of 22, which together with the count and the
+		// number fills the charstring operand stack of 24 entries.  A reader that
+		// does not know these numbers passes the call over.
+		for i := 0; i < 22; i++ {
+			b.inum(int64(i%7) * 10)
+		}
+		b.inum(22)
+		b.inum(12)
+		b.op(opCallothersubr)
+		for _, v := range []int64{1, 20, 3, 3, 13} {
+			b.inum(v)
+		}
+		b.op(opCallothersubr)
+	}
 	if err := emitStems(b, g, o.VStemFirst, true); err != nil {
 		return nil, err
 	}
